@@ -10,7 +10,7 @@
 from vlib import cpbind, realfn, universe
 from vlib.framework import Stats, hyp_search
 from vlib.shapeset import ShapeSpace
-from vlib.universe import Par, VP, VK
+from vlib.universe import Par, PO, POK, VP, KWO, VK
 from checks.c03 import full_view, canon_params
 
 LEVEL = 'exploration'
@@ -130,12 +130,17 @@ def check_unary(spec, stats):
     r, exc = merge_sigs(s)
     if r is not None and full_view(r) != full_view(s):
         stats.fail('C09/law/merge(s)-sources', case, 'merge(s).sources differs from s.sources for s=(%s)' % desc)
-    for an, kn in (('args', 'kwargs'), ('p', 'k')):
+    variants = [('args', 'kwargs', False), ('p', 'k', False)]
+    named = [p.name for p in spec if p.kind in (PO, POK, KWO)]
+    if named:
+        # the bare signature's stars spelled like a named parameter of s ("up to the names of star parameters")
+        variants += [(named[0], 'kwargs', True), ('args', named[-1], True)]
+    for an, kn, clash in variants:
         bare = realfn.sig_of((Par(an, VP), Par(kn, VK)), 'bare')
         for label, args in (('merge(s,bare)', (s, bare)), ('merge(bare,s)', (bare, s))):
             r, exc = merge_sigs(*args)
             if r is None or star_normalised(r) != star_normalised(s):
-                stats.fail('C09/law/neutral', dict(case, bare=[an, kn], order=label),
+                stats.fail('C09/law/neutral' + ('/star-spelled-like-a-parameter' if clash else ''), dict(case, bare=[an, kn], order=label),
                            '%s for s=(%s), bare=(*%s, **%s) gave %s' % (label, desc, an, kn, r if r is not None else exc))
     sp = signatures.sort_params(s)
     rt = signatures.apply_params(s, *sp)
